@@ -4,6 +4,7 @@ From Coq Require Import ZArith List Bool String Lia.
 From KV Require Import Base.Sx Gen.Generated Model.Prune Model.LostMap Model.Npy Model.StoreErr Model.VfwDamage.
 From KV Require Import Proofs.NpyP Proofs.StoreErrP Proofs.PruneP Proofs.LostMapP Proofs.LostMapNdP.
 From KV Require Proofs.C06P.
+From KV Require Import Proofs.NpyHdrP.
 Import ListNotations.
 Open Scope Z_scope.
 
@@ -78,36 +79,40 @@ Qed.
 Section Bytes.
   Variable parse_hdr : bytes -> option hdr.
   Variable print_hdr : hdr -> bytes.
-  Hypothesis parse_print : forall m, parse_hdr (print_hdr m) = Some m.
+  (* the headers the parser reads back (all of them for an abstract parser/printer pair; those with a printable
+     dtype descriptor for the concrete parser of the executable model, Proofs/NpyHdrP.v) *)
+  Variable ok : hdr -> Prop.
+  Hypothesis parse_print : forall m, ok m -> parse_hdr (print_hdr m) = Some m.
 
   (* nothing, or a proper prefix (any byte offset, 0 included) of a well-formed chunk file *)
   Definition file_damaged (f : option bytes) : Prop :=
     f = None \/
-    exists major nb m body k, wf_file print_hdr major nb m body /\
+    exists major nb m body k, ok m /\ wf_file print_hdr major nb m body /\
       (k < List.length (encode print_hdr major nb m body))%nat /\ f = Some (firstn k (encode print_hdr major nb m body)).
   (* a complete well-formed chunk file with the dtype and shape the metadata promises *)
   Definition file_healthy (f : option bytes) (want : hdr) : Prop :=
-    exists major nb m body, wf_file print_hdr major nb m body /\ f = Some (encode print_hdr major nb m body) /\
+    exists major nb m body, ok m /\ wf_file print_hdr major nb m body /\ f = Some (encode print_hdr major nb m body) /\
       hdr_matches want m = (true, true).
   (* a complete well-formed chunk file of another dtype or shape *)
   Definition file_mismatched (f : option bytes) (want : hdr) : Prop :=
-    exists major nb m body, wf_file print_hdr major nb m body /\ f = Some (encode print_hdr major nb m body) /\
+    exists major nb m body, ok m /\ wf_file print_hdr major nb m body /\ f = Some (encode print_hdr major nb m body) /\
       hdr_matches want m <> (true, true).
 
   Lemma low_damaged : forall f want, file_damaged f ->
     exists e, low_of_file parse_hdr f want = LRaise e /\ In e [B_EOFError; B_ValueError; B_FileNotFoundError].
   Proof.
-    intros f want [->|(major & nb & m & body & k & Hwf & Hk & ->)].
+    intros f want [->|(major & nb & m & body & k & Hok & Hwf & Hk & ->)].
     - exists B_FileNotFoundError. split; [reflexivity|simpl; auto].
-    - unfold low_of_file. rewrite (truncation_never_data parse_hdr print_hdr parse_print major nb m body k Hwf Hk).
+    - unfold low_of_file. rewrite (truncation_never_data_at parse_hdr print_hdr major nb m body k (parse_print m Hok) Hwf Hk).
       destruct (Nat.eqb k 0); cbn [lowres_of_decode exn_of_npyerr]; eexists; split; try reflexivity; simpl; auto.
   Qed.
 
-  Lemma low_complete : forall major nb m body want, wf_file print_hdr major nb m body ->
+  Lemma low_complete : forall major nb m body want, ok m -> wf_file print_hdr major nb m body ->
     low_of_file parse_hdr (Some (encode print_hdr major nb m body)) want =
     LArray (fst (hdr_matches want m)) (snd (hdr_matches want m)).
   Proof.
-    intros. unfold low_of_file. rewrite (decode_encode parse_hdr print_hdr parse_print major nb m body H).
+    intros major nb m body want Hok H. unfold low_of_file.
+    rewrite (decode_encode_at parse_hdr print_hdr major nb m body (parse_print m Hok) H).
     cbn [lowres_of_decode]. destruct (hdr_matches want m). reflexivity.
   Qed.
 
@@ -122,28 +127,28 @@ Section Bytes.
   Lemma healthy_is_stored : forall k s f want, file_healthy f want ->
     vfw_getter k s (low_of_file parse_hdr f want) = Ret Stored.
   Proof.
-    intros k s f want (major & nb & m & body & Hwf & -> & Hm). rewrite (low_complete _ _ _ _ _ Hwf), Hm.
+    intros k s f want (major & nb & m & body & Hok & Hwf & -> & Hm). rewrite (low_complete _ _ _ _ _ Hok Hwf), Hm.
     apply getter_stored.
   Qed.
 
   Lemma mismatched_is_badchunk : forall k s f want, file_mismatched f want ->
     vfw_getter k s (low_of_file parse_hdr f want) = Raise K_BadChunk.
   Proof.
-    intros k s f want (major & nb & m & body & Hwf & -> & Hm). rewrite (low_complete _ _ _ _ _ Hwf).
+    intros k s f want (major & nb & m & body & Hok & Hwf & -> & Hm). rewrite (low_complete _ _ _ _ _ Hok Hwf).
     apply getter_mismatch. destruct (hdr_matches want m) as [[] []]; try reflexivity. congruence.
   Qed.
 
   (* the S3 path: an object cut at any offset (Content-Length of the whole object), or a 404 *)
-  Lemma s3_damaged_is_filler : forall k major nb m body n want, wf_file print_hdr major nb m body ->
+  Lemma s3_damaged_is_filler : forall k major nb m body n want, ok m -> wf_file print_hdr major nb m body ->
     existsb (Z.eqb major) [1; 2] = true -> (n < List.length (encode print_hdr major nb m body))%nat ->
     (exists v, vfw_getter k SS3 (low_of_object parse_hdr (Some (firstn n (encode print_hdr major nb m body))) want) = Ret v
                /\ is_filler v = true) /\
     (exists v, vfw_getter k SS3 (low_of_object parse_hdr None want) = Ret v /\ is_filler v = true).
   Proof.
-    intros k major nb m body n want Hwf Hv Hn. destruct npy_undecodable_classes as [_ A]. rewrite forallb_forall in A.
+    intros k major nb m body n want Hok Hwf Hv Hn. destruct npy_undecodable_classes as [_ A]. rewrite forallb_forall in A.
     split.
     - unfold low_of_object.
-      rewrite (s3_truncation_never_data parse_hdr print_hdr parse_print major nb m body n Hwf Hv Hn).
+      rewrite (s3_truncation_never_data_at parse_hdr print_hdr major nb m body n (parse_print m Hok) Hwf Hv Hn).
       cbn [lowres_of_decode exn_of_npyerr]. apply getter_notfound. apply A. simpl; auto.
     - cbn [low_of_object]. apply getter_notfound. apply A. simpl; auto.
   Qed.
@@ -253,39 +258,40 @@ Qed.
 Section FileStore.
   Variable parse_hdr : bytes -> option hdr.
   Variable print_hdr : hdr -> bytes.
-  Hypothesis parse_print : forall m, parse_hdr (print_hdr m) = Some m.
+  Variable ok : hdr -> Prop.
+  Hypothesis parse_print : forall m, ok m -> parse_hdr (print_hdr m) = Some m.
 
   (* ds is an NPY file store whose chunk (a, id) is read from [files a id] against the request [wants a id] *)
   Definition npy_backed (ds : dstore) (files : nat -> list Z -> option bytes) (wants : nat -> list Z -> hdr) : Prop :=
     d_store ds = SNpy /\ forall a id, d_low ds a id = low_of_file parse_hdr (files a id) (wants a id).
 
-  Lemma backed_damaged ds files wants a id : npy_backed ds files wants -> file_damaged print_hdr (files a id) ->
+  Lemma backed_damaged ds files wants a id : npy_backed ds files wants -> file_damaged print_hdr ok (files a id) ->
     chunk_missing ds a id = true.
   Proof.
     intros [S Lw] D. unfold chunk_missing, chunk_outcome. rewrite S, Lw.
-    destruct (damaged_is_filler parse_hdr print_hdr parse_print (akind_of a) _ (wants a id) D) as (v & -> & F). exact F.
+    destruct (damaged_is_filler parse_hdr print_hdr ok parse_print (akind_of a) _ (wants a id) D) as (v & -> & F). exact F.
   Qed.
 
-  Lemma backed_healthy ds files wants a id : npy_backed ds files wants -> file_healthy print_hdr (files a id) (wants a id) ->
+  Lemma backed_healthy ds files wants a id : npy_backed ds files wants -> file_healthy print_hdr ok (files a id) (wants a id) ->
     chunk_missing ds a id = false /\ chunk_outcome ds a id = Ret Stored.
   Proof.
     intros [S Lw] H. unfold chunk_missing, chunk_outcome. rewrite Lw.
-    rewrite (healthy_is_stored parse_hdr print_hdr parse_print _ _ _ _ H). auto.
+    rewrite (healthy_is_stored parse_hdr print_hdr ok parse_print _ _ _ _ H). auto.
   Qed.
 
   Theorem damaged_chunk_zero_filled_and_flagged : forall ds files wants p,
     npy_backed ds files wants -> C06P.cfg_ok (cfg_of_dstore ds) p ->
     (* a damaged vis chunk: its elements are zero and flagged *)
-    (file_damaged print_hdr (files A_VIS (cover ds A_VIS p)) ->
+    (file_damaged print_hdr ok (files A_VIS (cover ds A_VIS p)) ->
        dmg_vis ds p = 0 /\ Z.testbit (dmg_flags ds p) 3 = true) /\
     (* a damaged weights or weights_channel chunk: the weight is zero and the element flagged *)
-    (file_damaged print_hdr (files A_W (cover ds A_W p)) \/ file_damaged print_hdr (files A_WC (cover ds A_WC p)) ->
+    (file_damaged print_hdr ok (files A_W (cover ds A_W p)) \/ file_damaged print_hdr ok (files A_WC (cover ds A_WC p)) ->
        dmg_weights ds p = 0 /\ Z.testbit (dmg_flags ds p) 3 = true) /\
     (* a damaged flags chunk: data_lost and nothing else *)
-    (file_damaged print_hdr (files A_FLAGS (cover ds A_FLAGS p)) ->
+    (file_damaged print_hdr ok (files A_FLAGS (cover ds A_FLAGS p)) ->
        Z.testbit (dmg_flags ds p) 3 = true /\ forall i, 0 <= i -> i <> 3 -> Z.testbit (dmg_flags ds p) i = false) /\
     (* all four covering chunks healthy: the stored values, flags untouched (no spurious data_lost) *)
-    ((forall a, In a arrays4 -> file_healthy print_hdr (files a (cover ds a p)) (wants a (cover ds a p))) ->
+    ((forall a, In a arrays4 -> file_healthy print_hdr ok (files a (cover ds a p)) (wants a (cover ds a p))) ->
        dmg_vis ds p = stored_at ds A_VIS p /\ dmg_weights ds p = stored_at ds A_W p * stored_at ds A_WC p /\
        dmg_flags ds p = stored_at ds A_FLAGS p).
   Proof.
@@ -312,27 +318,65 @@ Section FileStore.
      fails a load), while one mismatched chunk inside the window fails it with BadChunk *)
   Theorem damaged_store_loads : forall ds files wants, npy_backed ds files wants ->
     (forall a id, In (a, id) (needed ds) ->
-       file_damaged print_hdr (files a id) \/ file_healthy print_hdr (files a id) (wants a id)) ->
+       file_damaged print_hdr ok (files a id) \/ file_healthy print_hdr ok (files a id) (wants a id)) ->
     load_errors ds = [].
   Proof.
     intros ds files wants B H. apply load_ok_iff. intros a id Hin. destruct (H a id Hin) as [D|G].
     - destruct B as [S Lw]. unfold chunk_outcome. rewrite S, Lw.
-      destruct (damaged_is_filler parse_hdr print_hdr parse_print (akind_of a) _ (wants a id) D) as (v & -> & _). eauto.
+      destruct (damaged_is_filler parse_hdr print_hdr ok parse_print (akind_of a) _ (wants a id) D) as (v & -> & _). eauto.
     - exists Stored. exact (proj2 (backed_healthy ds files wants a id B G)).
   Qed.
 
   Theorem mismatched_chunk_fails_load : forall ds files wants p a, npy_backed ds files wants ->
     C06P.cfg_ok (cfg_of_dstore ds) p -> In a arrays4 ->
-    file_mismatched print_hdr (files a (cover ds a p)) (wants a (cover ds a p)) ->
+    file_mismatched print_hdr ok (files a (cover ds a p)) (wants a (cover ds a p)) ->
     In K_BadChunk (load_errors ds) /\ load_errors ds <> [].
   Proof.
     intros ds files wants p a [S Lw] OK Ha M.
     assert (X : In K_BadChunk (load_errors ds)).
     { apply load_error_iff. exists a, (cover ds a p). split; [exact (covering_chunk_is_needed ds p a OK Ha)|].
-      unfold chunk_outcome. rewrite Lw. apply (mismatched_is_badchunk parse_hdr print_hdr parse_print). exact M. }
+      unfold chunk_outcome. rewrite Lw. apply (mismatched_is_badchunk parse_hdr print_hdr ok parse_print). exact M. }
     split; [exact X|]. intro E. rewrite E in X. destruct X.
   Qed.
 End FileStore.
+
+(* ---------- the same with the concrete header parser / printer: no hypothesis left ---------- *)
+Definition hdr_ok (m : hdr) : Prop := descr_ok (h_descr m).
+Lemma parse_print_ok pad : forall m, hdr_ok m -> parse_hdr_c (print_hdr_c pad m) = Some m.
+Proof. intros m H. exact (parse_print_c pad m H). Qed.
+
+Theorem damaged_chunk_zero_filled_and_flagged_c : forall pad ds files wants p,
+  npy_backed parse_hdr_c ds files wants -> C06P.cfg_ok (cfg_of_dstore ds) p ->
+  (file_damaged (print_hdr_c pad) hdr_ok (files A_VIS (cover ds A_VIS p)) ->
+     dmg_vis ds p = 0 /\ Z.testbit (dmg_flags ds p) 3 = true) /\
+  (file_damaged (print_hdr_c pad) hdr_ok (files A_W (cover ds A_W p)) \/
+   file_damaged (print_hdr_c pad) hdr_ok (files A_WC (cover ds A_WC p)) ->
+     dmg_weights ds p = 0 /\ Z.testbit (dmg_flags ds p) 3 = true) /\
+  (file_damaged (print_hdr_c pad) hdr_ok (files A_FLAGS (cover ds A_FLAGS p)) ->
+     Z.testbit (dmg_flags ds p) 3 = true /\ forall i, 0 <= i -> i <> 3 -> Z.testbit (dmg_flags ds p) i = false) /\
+  ((forall a, In a arrays4 -> file_healthy (print_hdr_c pad) hdr_ok (files a (cover ds a p)) (wants a (cover ds a p))) ->
+     dmg_vis ds p = stored_at ds A_VIS p /\ dmg_weights ds p = stored_at ds A_W p * stored_at ds A_WC p /\
+     dmg_flags ds p = stored_at ds A_FLAGS p).
+Proof.
+  intros pad. exact (damaged_chunk_zero_filled_and_flagged parse_hdr_c (print_hdr_c pad) hdr_ok (parse_print_ok pad)).
+Qed.
+
+(* the getters on the bytes of a real chunk file, concrete parser: every proper prefix is filler, the whole file is data *)
+Theorem npy_prefixes_c : forall pad k major nb m body n want,
+  hdr_ok m -> wf_file (print_hdr_c pad) major nb m body ->
+  (n < List.length (encode (print_hdr_c pad) major nb m body))%nat ->
+  (exists v, vfw_getter k SNpy (low_of_file parse_hdr_c (Some (firstn n (encode (print_hdr_c pad) major nb m body))) want) = Ret v
+             /\ is_filler v = true) /\
+  vfw_getter k SNpy (low_of_file parse_hdr_c (Some (encode (print_hdr_c pad) major nb m body)) m) = Ret Stored.
+Proof.
+  intros pad k major nb m body n want Hok Hwf Hn. split.
+  - apply (damaged_is_filler parse_hdr_c (print_hdr_c pad) hdr_ok (parse_print_ok pad)).
+    right. exists major, nb, m, body, n. auto.
+  - apply (healthy_is_stored parse_hdr_c (print_hdr_c pad) hdr_ok (parse_print_ok pad)).
+    exists major, nb, m, body. split; [exact Hok|]. split; [exact Hwf|]. split; [reflexivity|].
+    unfold hdr_matches. rewrite bytes_eqb_refl.
+    destruct (list_eq_dec Nat.eq_dec (h_shape m) (h_shape m)); [reflexivity|congruence].
+Qed.
 
 (* ---------- non-vacuity: same block counts, shifted boundaries ----------
    4 dumps x 2 channels x 1 product; vis time chunks (3, 1), flags time chunks (2, 2), weights (1, 3),
